@@ -394,3 +394,38 @@ pub fn reachable_addresses<V>(d: &Dump<'_, Key, V>) -> std::collections::BTreeSe
     out.remove(&0);
     out
 }
+
+/// Where in the structure an address is referenced from (diagnostics for the retire probe).
+pub fn describe_address<V>(d: &Dump<'_, Key, V>, addr: usize) -> String {
+    let mut out = Vec::new();
+    for (tname, t) in [("current table", &d.table), ("table under construction", &d.next)] {
+        let Some(t) = t else { continue };
+        if t.addr == addr {
+            out.push(format!("it is the {}", tname));
+        }
+        if t.next_table == addr {
+            out.push(format!("the {} forwards to it", tname));
+        }
+        for (i, b) in t.bins.iter().enumerate() {
+            let (kind, nodes, extra): (&str, &Vec<NodeDump<'_, Key, V>>, Vec<(&str, usize)>) = match b {
+                BinDump::List { nodes, .. } => ("list", nodes, vec![]),
+                BinDump::Tree { addr: a, root, first, nodes, .. } => ("tree", nodes, vec![("bin head", *a), ("root", *root), ("first", *first)]),
+                _ => continue,
+            };
+            for (what, a) in extra {
+                if a == addr {
+                    out.push(format!("{} of {} bin {} of the {}", what, kind, i, tname));
+                }
+            }
+            for (j, n) in nodes.iter().enumerate() {
+                let k = n.key.read().map(|x| x.0).unwrap_or(u32::MAX);
+                for (what, a) in [("node", n.addr), ("value", n.value_addr), ("next", n.next), ("left", n.left), ("right", n.right)] {
+                    if a == addr {
+                        out.push(format!("{} of node #{} (key {}) in {} bin {} of the {}", what, j, k, kind, i, tname));
+                    }
+                }
+            }
+        }
+    }
+    out.join("; ")
+}
